@@ -112,6 +112,22 @@ pub fn targets() -> Vec<Target> {
     ]
 }
 
+/// (entry point, prefix, repeated unit, suffix): k copies of the unit for k = 2^i
+pub const REPEATS: &[(&str, &[u8], &[u8], &[u8])] = &[
+    ("Response::parse", b"HTTP/1.1 200 OK\r\n", b"X-H: v\r\n", b"\r\nbody"),
+    ("Response::parse", b"HTTP/1.1 206 Partial Content\r\nContent-Type: multipart/byteranges; boundary=String_separator\r\n\r\n", b"--String_separator\r\nContent-Type: text/plain\r\nContent-Range: bytes 0-0/100\r\n\r\nx\r\n", b"--String_separator"),
+    ("Range::parse_multipart_body", b"", b"--String_separator\r\nContent-Type: text/plain\r\nContent-Range: bytes 0-0/100\r\n\r\nx\r\n", b"--String_separator"),
+    ("Request::parse", b"GET / HTTP/1.1\r\n", b"a: b\r\n", b"\r\n"),
+    ("FormMultipartData::parse(boundary b)", b"b\n", b"a: b\n\nv\nb\n", b""),
+    ("RawUnprocessedJSONArray::split_into_vector_of_strings", b"[", b"1,", b"1]"),
+    ("JSONArrayOfObjects::from_json", b"[", b"{\"name\": \"n\", \"num\": 1},", b"{\"name\": \"n\", \"num\": 1}]"),
+    ("JSON::parse_as_properties", b"{", b"\"k\": 1, ", b"\"z\": 2}"),
+    ("read_config_file", b"", b"ip = '127.0.0.1'\n", b""),
+    ("Range::parse_content_range", b"bytes=", b"0-0,", b"1-1"),
+    ("UrlPath::extract_parts_from_pattern", b"", b"/[[a]]", b""),
+    ("Base64::decode", b"", b"Zm9v", b""),
+];
+
 pub const HOSTILE: &[u8] = &[0x00, 0x09, 0x0a, 0x0d, 0x20, 0x22, 0x2c, 0x2d, 0x2e, 0x2f, 0x30, 0x39, 0x3a, 0x3d, 0x5b, 0x5c, 0x5d, 0x7b, 0x7d, 0x80, 0xc3, 0xff];
 
 #[derive(Clone, Debug)]
@@ -165,6 +181,16 @@ fn input_from_gen(t: &Target, gen: &Value) -> Vec<u8> {
             }
             v
         }
+        Some("repeat") => {
+            let r = REPEATS[gen["index"].as_u64().unwrap_or(0) as usize % REPEATS.len()];
+            let k = gen["k"].as_u64().unwrap_or(1) as usize;
+            let mut v = r.1.to_vec();
+            for _ in 0..k {
+                v.extend_from_slice(r.2);
+            }
+            v.extend_from_slice(r.3);
+            v
+        }
         Some("long") => {
             let seed = t.seeds[gen["seed"].as_u64().unwrap_or(0) as usize % t.seeds.len()];
             let at = gen["at"].as_u64().unwrap_or(0) as usize;
@@ -189,6 +215,7 @@ pub fn run(ctx: &mut Ctx) {
     ctx.bound("entry_points", json!(ts.iter().map(|t| t.name).collect::<Vec<_>>()));
     ctx.bound("short", json!(format!("every concatenation of <= {} symbols of the entry point's delimiter alphabet (15..18 symbols incl. NUL, a multi-byte character and invalid UTF-8)", if thorough { 4 } else { 3 })));
     ctx.bound("mutation", json!(format!("every single mutation of every seed: truncation at each offset, each byte replaced by each of {} hostile bytes, deletion, duplication{}", HOSTILE.len(), if thorough { "; every pair of replacements on seeds <= 40 bytes" } else { "" })));
+    ctx.bound("repetitions", json!("2^i copies (i = 0..14, 0..16 in thorough) of a header line / part / array element / key / config line / range spec / path token, per entry point that reads such units"));
     ctx.bound("structure", json!("nesting depth 2^k for k = 0..12 (0..16 in thorough; closed and unclosed) where the format nests; a run of 65536 identical bytes inserted at 3 positions of every seed"));
     for (ti, t) in ts.iter().enumerate() {
         // short strings over the alphabet
@@ -236,6 +263,17 @@ pub fn run(ctx: &mut Ctx) {
                     let input = input_from_gen(t, &gen);
                     run_one(ctx, t, Case { target: ti, family: "deep-nesting", input, gen });
                 }
+            }
+        }
+        // many repetitions of a structural unit (lines, parts, elements)
+        for (ri, r) in REPEATS.iter().enumerate() {
+            if r.0 != t.name {
+                continue;
+            }
+            for i in 0..=(if thorough { 16u32 } else { 14u32 }) {
+                let gen = json!({"kind":"repeat","index":ri,"k": 1u64 << i});
+                let input = input_from_gen(t, &gen);
+                run_one(ctx, t, Case { target: ti, family: "many-repetitions", input, gen });
             }
         }
         // long runs
